@@ -546,6 +546,163 @@ func (e *Engine) VerifyStructural(name string) {
 			return
 		}
 		e.Obls = append(e.Obls, &Obligation{Name: oname, Kind: "structural", Func: oname, Goal: True, Clause: fmt.Sprintf("%s (%d stores in %d functions)", sc.Text, sites, n), Where: where})
+	case "not_reachable":
+		// not_reachable METHOD in PKG: FUNC...
+		// From no method named METHOD of the package (the implementations behind an interface method)
+		// is one of the listed functions reachable. The call graph is over-approximated: static calls,
+		// closures and function values mentioned are followed; an interface call reaches every method
+		// of the module with that name; a call through a function value reaches every function of the
+		// module whose value is taken anywhere. Functions outside the module are not entered (they
+		// cannot call unexported functions of the package, and the listed ones must be unexported or
+		// are checked by name anyway when a module function passes them along as values).
+		if len(f) < 4 || f[2] != "in" {
+			fail("not_reachable METHOD in PKG: FUNC...")
+			return
+		}
+		pkg := resolvePkg(strings.TrimSuffix(f[3], ":"))
+		forbidden := map[string]bool{}
+		for _, x := range f[4:] {
+			forbidden[strings.TrimSuffix(x, ":")] = true
+		}
+		inModule := func(fn *ssa.Function) bool {
+			return strings.HasPrefix(pkgOf(fn), ModulePath) && len(fn.Blocks) > 0
+		}
+		byName := map[string][]*ssa.Function{}
+		var taken []*ssa.Function
+		isTaken := map[*ssa.Function]bool{}
+		for _, fn := range fns {
+			if !inModule(fn) {
+				continue
+			}
+			if fn.Signature.Recv() != nil {
+				byName[fn.Name()] = append(byName[fn.Name()], fn)
+			}
+			for _, b := range fn.Blocks {
+				for _, in := range b.Instrs {
+					var callee ssa.Value
+					if ci, ok := in.(ssa.CallInstruction); ok && !ci.Common().IsInvoke() {
+						callee = ci.Common().Value
+					}
+					for _, op := range in.Operands(nil) {
+						if op == nil || *op == nil {
+							continue
+						}
+						if g, ok := (*op).(*ssa.Function); ok && *op != callee && !isTaken[g] {
+							isTaken[g] = true
+							taken = append(taken, g)
+						}
+						if mc, ok := (*op).(*ssa.MakeClosure); ok {
+							if g, ok := mc.Fn.(*ssa.Function); ok && !isTaken[g] {
+								isTaken[g] = true
+								taken = append(taken, g)
+							}
+						}
+					}
+				}
+			}
+		}
+		var roots []*ssa.Function
+		for _, fn := range byName[f[1]] {
+			if pkgOf(fn) == pkg {
+				roots = append(roots, fn)
+			}
+		}
+		if len(roots) == 0 {
+			fail("no method named " + f[1] + " in " + pkg)
+			return
+		}
+		found := map[string]bool{}
+		for k := range forbidden {
+			found[k] = false
+		}
+		for _, fn := range fns {
+			if pkgOf(fn) == pkg {
+				if _, ok := found[shortKey(funcKey(fn))]; ok {
+					found[shortKey(funcKey(fn))] = true
+				}
+			}
+		}
+		for k, ok := range found {
+			if !ok {
+				fail("listed function " + k + " does not exist in " + pkg)
+				return
+			}
+		}
+		from := map[*ssa.Function]*ssa.Function{}
+		var work []*ssa.Function
+		push := func(g, parent *ssa.Function) {
+			if g == nil {
+				return
+			}
+			if _, seen := from[g]; seen {
+				return
+			}
+			from[g] = parent
+			work = append(work, g)
+		}
+		for _, r := range roots {
+			push(r, nil)
+		}
+		var bad []string
+		for len(work) > 0 {
+			fn := work[0]
+			work = work[1:]
+			if pkgOf(fn) == pkg && forbidden[shortKey(funcKey(fn))] {
+				chain := shortKey(funcKey(fn))
+				for p := from[fn]; p != nil; p = from[p] {
+					chain = shortKey(funcKey(p)) + " -> " + chain
+				}
+				bad = append(bad, chain)
+				continue
+			}
+			if !inModule(fn) {
+				continue
+			}
+			for _, af := range fn.AnonFuncs {
+				push(af, fn)
+			}
+			for _, b := range fn.Blocks {
+				for _, in := range b.Instrs {
+					for _, op := range in.Operands(nil) {
+						if op == nil || *op == nil {
+							continue
+						}
+						if g, ok := (*op).(*ssa.Function); ok {
+							push(g, fn)
+						}
+					}
+					ci, ok := in.(ssa.CallInstruction)
+					if !ok {
+						continue
+					}
+					c := ci.Common()
+					if c.IsInvoke() {
+						for _, g := range byName[c.Method.Name()] {
+							push(g, fn)
+						}
+						continue
+					}
+					if c.StaticCallee() != nil {
+						push(c.StaticCallee(), fn)
+						continue
+					}
+					if _, isBuiltin := c.Value.(*ssa.Builtin); isBuiltin {
+						continue
+					}
+					for _, g := range taken {
+						if types.Identical(g.Signature.Params(), c.Signature().Params()) && types.Identical(g.Signature.Results(), c.Signature().Results()) {
+							push(g, fn)
+						}
+					}
+				}
+			}
+		}
+		if len(bad) > 0 {
+			sort.Strings(bad)
+			fail("reachable from an implementation of " + f[1] + ": " + strings.Join(bad, "; "))
+			return
+		}
+		e.Obls = append(e.Obls, &Obligation{Name: oname, Kind: "structural", Func: oname, Goal: True, Clause: fmt.Sprintf("%s (%d implementations, %d functions reachable)", sc.Text, len(roots), len(from)), Where: where})
 	default:
 		fail("unknown structural check " + f[0])
 	}
